@@ -33,6 +33,8 @@ DECIDED = [
     "LIB-1 ET.XML / ET.parse are wrapped: XMLSyntaxError -> ParserException",
     "TOT-1 parse_cardinality (both) is total on every order type of input (no raise, normal form or None)",
     "LOOP-1 no parsed state leaks from one sibling element to the next",
+    'ROW-1 the first row of a csv reader is taken only over a text known to be non-empty',
+    'KEY-2 a literal key is looked up in an iterated input dictionary only where the iteration has just met that key',
 ]
 NOT_DECIDED = ["library internals (lxml, yaml, json): non-termination, entity expansion", "dictionaries of the wrong shape",
                "YAML scanner/composer errors of ODMLReader (text front end, outside the dictionary reader)"]
